@@ -90,7 +90,7 @@ _BUILTINS = {"len": len, "chr": chr, "ord": ord, "bytes": bytes, "bytearray": by
              "frozenset": frozenset, "set": set, "tuple": tuple, "list": list, "dict": dict, "str": str, "int": int,
              "min": min, "max": max, "sorted": sorted, "abs": abs, "bool": bool, "enumerate": enumerate, "zip": zip,
              "reversed": reversed, "divmod": divmod, "hex": hex, "isinstance": isinstance, "repr": repr, "sum": sum,
-             "any": any, "all": all, "float": float, "iter": iter, "next": next, "type": type}
+             "any": any, "all": all, "float": float, "iter": iter, "next": next, "type": type, "filter": filter}
 _TYPE_NAMES = {"bytes": bytes, "str": str, "int": int, "list": list, "tuple": tuple, "float": float, "bytearray": bytearray,
                "dict": dict, "set": set}
 _PURE_METHODS = {"startswith", "endswith", "replace", "strip", "lstrip", "rstrip", "find", "rfind", "index", "count", "join",
@@ -113,7 +113,23 @@ STDLIB = {"re.compile": re.compile, "re.escape": re.escape, "re.sub": re.sub, "r
           "functools.reduce": functools.reduce, "itertools.groupby": itertools.groupby, "itertools.chain": itertools.chain,
           "itertools.takewhile": itertools.takewhile, "itertools.dropwhile": itertools.dropwhile, "itertools.islice": itertools.islice,
           "binascii.b2a_base64": binascii.b2a_base64, "binascii.a2b_base64": binascii.a2b_base64,
-          "base64.b64encode": base64.b64encode, "base64.b64decode": base64.b64decode}
+          "base64.b64encode": base64.b64encode, "base64.b64decode": base64.b64decode, "base64.encodebytes": base64.encodebytes, "base64.decodebytes": base64.decodebytes,
+          "base64.standard_b64encode": base64.standard_b64encode, "base64.standard_b64decode": base64.standard_b64decode,
+          "base64.urlsafe_b64encode": base64.urlsafe_b64encode, "base64.urlsafe_b64decode": base64.urlsafe_b64decode, "base64.b32encode": base64.b32encode,
+          "base64.b16encode": base64.b16encode, "binascii.hexlify": binascii.hexlify, "binascii.unhexlify": binascii.unhexlify, "binascii.b2a_hex": binascii.b2a_hex,
+          "binascii.a2b_hex": binascii.a2b_hex, "binascii.b2a_qp": binascii.b2a_qp, "binascii.crc32": binascii.crc32}
+def _stdlib_codec(fn):
+    import codecs as _codecs
+
+    def call(obj, encoding="utf-8", errors="strict"):
+        if not isinstance(encoding, str) or encoding.lower().replace("_", "-") in {c.replace("_", "-") for c in _FORBIDDEN_CODECS}:
+            raise NotPure("codec under test: " + str(encoding))
+        return getattr(_codecs, fn)(obj, encoding, errors)
+    return call
+
+
+STDLIB["codecs.encode"] = _stdlib_codec("encode")
+STDLIB["codecs.decode"] = _stdlib_codec("decode")
 _RE_FLAGS = {"re." + n: getattr(re, n) for n in ("I", "IGNORECASE", "M", "MULTILINE", "S", "DOTALL", "X", "VERBOSE", "A", "ASCII")}
 _OBJECT_METHODS = {re.Pattern: {"sub", "subn", "match", "search", "fullmatch", "split", "findall"},
                    re.Match: {"group", "groups", "start", "end", "span", "groupdict"},
@@ -359,7 +375,7 @@ def _small(a, b):
 def _guard(fn):
     try:
         v = fn()
-        if isinstance(v, (map, zip, enumerate, reversed)) or type(v).__name__ in ("generator", "dict_items", "dict_keys", "dict_values"):
+        if isinstance(v, (map, zip, enumerate, reversed, filter)) or type(v).__name__ in ("generator", "dict_items", "dict_keys", "dict_values"):
             v = list(v)
         return v
     except (NotPure, Raised, AnalysisError):
@@ -381,6 +397,16 @@ def _bind(target, value, env):
         env[target.id] = value
     elif isinstance(target, ast.Attribute) and dotted(target) is not None:
         env[dotted(target)] = value
+    elif isinstance(target, ast.Subscript) and isinstance(target.slice, ast.Slice):
+        try:
+            cont = peval(target.value, env)
+            lo = peval(target.slice.lower, env) if target.slice.lower else None
+            hi = peval(target.slice.upper, env) if target.slice.upper else None
+        except Raised as e:
+            raise NotPure("slice target raises: " + str(e))
+        if not isinstance(cont, (list, bytearray)) or target.slice.step is not None:
+            raise NotPure("slice target container")
+        cont[lo:hi] = list(value)
     elif isinstance(target, ast.Subscript) and not isinstance(target.slice, ast.Slice):
         try:
             cont = peval(target.value, env)
